@@ -299,6 +299,14 @@ def shared_state_unit():
                         {'ref': 'exactpack/solvers/nohblackboxeos/blackboxnoh.py::NohBlackBoxEos.solve_jump_conditions', 'sha256_16': R.source_hash(sj)}]
     ct = R.class_table()['classes']
     shared = 'solver' in ct[BB]['attrs']
+    init_m = R.find_method(BB, '__init__')
+    if shared and init_m is not None:
+        # a constructor that unconditionally rebinds self.solver to a freshly constructed object makes the solver per-instance
+        for s_ in init_m.node.body:
+            if (isinstance(s_, ast.Assign) and len(s_.targets) == 1 and isinstance(s_.targets[0], ast.Attribute) and s_.targets[0].attr == 'solver'
+                    and isinstance(s_.targets[0].value, ast.Name) and s_.targets[0].value.id == 'self' and isinstance(s_.value, ast.Call)
+                    and isinstance(s_.value.func, ast.Name) and s_.value.func.id == 'newton_solver'):
+                shared = False
     reads = sorted({e[1] for e in attr_reads_writes(solve.node) if e[0] == 'read'} - {e[1] for e in attr_reads_writes(solve.node) if e[0] == 'write' and e[2]})
     # attributes (re)initialised by solve_jump_conditions before the call of solve: through the setters it calls
     init = set(); seen_solve = False
@@ -424,9 +432,9 @@ def call(s, pts, t):
 if len(sys.argv) > 1:
     i = int(sys.argv[1]); s, p, t = build(i); print(json.dumps(call(s, p, t))); sys.exit(0)
 ref = {}
-for i in range(len(SPEC)):
-    r_ = subprocess.run([sys.executable, '-c', open(os.environ['HIST_SCRIPT']).read(), str(i)], capture_output=True, text=True, env=os.environ)
-    ref[i] = json.loads(r_.stdout.strip().splitlines()[-1])
+procs = {i: subprocess.Popen([sys.executable, '-c', open(os.environ['HIST_SCRIPT']).read(), str(i)], stdout=subprocess.PIPE, stderr=subprocess.DEVNULL, text=True, env=os.environ) for i in range(len(SPEC))}
+for i, pr in procs.items():
+    ref[i] = json.loads(pr.communicate()[0].strip().splitlines()[-1])
 objs = {i: build(i) for i in range(len(SPEC))}
 bad = []
 for i in %(order)r:
@@ -443,6 +451,7 @@ def history_unit(tier):
             ('exactpack.solvers.rmtv', 'Rmtv', {}, [0.2, 0.5], 0.05), ('exactpack.solvers.suolson', 'SuOlson', {}, [0.1, 0.5], 1e-9), ('exactpack.solvers.suolson', 'SuOlson', {'opac': 2.0}, [0.1, 0.5], 1e-9),
             ('exactpack.solvers.sedov', 'Sedov', {'gamma': 1.4}, [0.2, 0.5], 0.5), ('exactpack.solvers.sedov', 'Sedov', {'gamma': 1.6, 'geometry': 2, 'eblast': 0.3}, [0.2, 0.5], 0.5),
             ('exactpack.solvers.riemann.ep_riemann', 'IGEOS_Solver', {}, [0.3, 0.7], 0.2), ('exactpack.solvers.noh', 'Noh', {'gamma': 1.4}, [0.1, 0.5], 0.6)]
+    if tier == 'quick': spec = [e for e in spec if e[1] != 'Guderley']      # one Guderley call takes ~150 s: thorough tier only (its module globals are covered deductively by globals/guderley)
     rnd = random.Random(core.SEED + 3)
     order = [rnd.randrange(len(spec)) for _ in range(6 if tier == 'quick' else 24)] + list(range(len(spec)))
     script = HISTORY % dict(spec=spec, order=order)
